@@ -52,6 +52,11 @@ def step (quirk : Bool) (toks : List String) (impl : String) : Drv.Res :=
     let m := s!"rt=same prefixed={if v == 1 then 1 else 0}"
     { model := m, monitor := if kv it "rt" == "same" then [] else ["framing_agrees_for_negotiated_version"],
       tags := ["frame", s!"v{v}"], skipCompare := v ≥ 2 }
-  | _ => { model := "bad-op", tags := ["bad-op"], nontrivial := false }
+  | _ =>
+    if toks.head? == some "offerafterfail" then
+      -- negotiations that failed with OTHER peers cost a pairing that shares a version nothing: its offer still goes through
+      { model := "delivered=1", monitor := if impl == "delivered=1" then [] else ["shared_version_pairing_served_after_failed_negotiations"],
+        tags := ["offerafterfail", "vb" ++ kv toks "vb"] }
+    else { model := "bad-op", tags := ["bad-op"], nontrivial := false }
 
 end Drv.C19
